@@ -715,6 +715,11 @@ var connCovered = []string{"Authorization", "authorization", "Date, Cookie", "X-
 	"close, X-Forwarded-Groups", "Cookie", "x-forwarded-access-token"}
 var connSig = []string{"Sso-Signature", "kid", "Gap-Signature", "sso-signature, KID"}
 
+// protocol-upgrade requests: a Connection header listing the `upgrade` token (spellings, among other
+// tokens) next to an Upgrade header. ReverseProxy re-adds both; Upgrade is not covered, the body is.
+var connUpgrade = []string{"Upgrade", "upgrade", "UPGRADE", "keep-alive, Upgrade", "Upgrade, keep-alive", "x-custom , uPgRaDe,close", " upgrade ", "Upgrade,,"}
+var upgradeProto = []string{"websocket", "h2c", "WebSocket", "TLS/1.0, HTTP/1.1", "foo/2"}
+
 func binBody(r *c.Rng, n int) []byte {
 	b := make([]byte, n)
 	for i := range b {
@@ -807,6 +812,15 @@ func genSpec(r *c.Rng, tier string) *spec {
 		} else {
 			s.Headers = append(s.Headers, hdr{"Connection", r.Pick(connPool)}, hdr{"Connection", r.Pick(connCovered)})
 		}
+	case 5:
+		s.Headers = append(s.Headers, hdr{"Upgrade", r.Pick(upgradeProto)})
+		if r.Chance(0.3) {
+			s.Headers = append(s.Headers, hdr{"Connection", r.Pick(connPool)})
+		}
+		s.Headers = append(s.Headers, hdr{r.Pick([]string{"Connection", "connection"}), r.Pick(connUpgrade)})
+		if s.Method == "GET" && r.Chance(0.6) {
+			s.Method = "POST"
+		}
 	}
 	if r.Chance(0.15) { // client-supplied signature headers: forged, or replayed from an earlier request of this proxy
 		forged := r.Chance(0.5)
@@ -884,6 +898,18 @@ func corpus(r *c.Rng, tier string) []*spec {
 	add(baseSpec("Connection names an absent covered header (harmless)", "GET", "/k1n", hdr{"Connection", "Content-Md5"}))
 	add(baseSpec("Connection: Content-Length (rewritten by the wire anyway)", "POST", "/k1l", hdr{"Connection", "Content-Length"})).Mode = "sized"
 	l[len(l)-1].Body = []byte("abc")
+	// protocol-upgrade requests (answered 200 by the upstream): the body is part of the signed document all the same
+	s = add(baseSpec("upgrade request with a body: Connection: Upgrade, Upgrade: websocket", "POST", "/up", hdr{"Connection", "Upgrade"}, hdr{"Upgrade", "websocket"},
+		hdr{"Content-Type", "application/json"}))
+	s.Mode, s.Body = "sized", []byte("{\"upgrade\":\"body\"}\n")
+	s = add(baseSpec("upgrade request with a chunked body: Connection: keep-alive, UPGRADE, Upgrade: h2c", "POST", "/up2", hdr{"Upgrade", "h2c"}, hdr{"connection", "keep-alive, UPGRADE"}))
+	s.Mode, s.Body, s.Chunks = "chunked", []byte("upgrade\nchunked body"), 2
+	s = add(baseSpec("upgrade request, two Connection lines", "PUT", "/up3", hdr{"Connection", "close"}, hdr{"Connection", "x-custom, upgrade"}, hdr{"Upgrade", "websocket"}, hdr{"X-Custom", "gone"}))
+	s.Mode, s.Body = "sized", []byte("x")
+	add(baseSpec("upgrade request without a body (websocket handshake shape)", "GET", "/up4?room=1", hdr{"Connection", "Upgrade"}, hdr{"Upgrade", "websocket"},
+		hdr{"Sec-WebSocket-Key", "dGhlIHNhbXBsZSBub25jZQ=="}, hdr{"Sec-WebSocket-Version", "13"}))
+	s = add(baseSpec("Upgrade header not announced in Connection (stripped, not an upgrade)", "POST", "/up5", hdr{"Upgrade", "websocket"}, hdr{"Connection", "keep-alive"}))
+	s.Mode, s.Body = "sized", []byte("plain")
 	// K2 witnesses: Content-Length text that the transport does not reproduce
 	add(baseSpec("K2: GET with Content-Length: 0", "GET", "/k2")).CLText = "0"
 	add(baseSpec("K2: DELETE with Content-Length: 0", "DELETE", "/k2d")).CLText = "0"
